@@ -4,6 +4,12 @@ NOTES = "All checks: bin/check <ID> --tier quick|thorough [--replay file]; exit 
 NOT_APPLICABLE = {}
 _EVAL_NOTE = "Program-level values of 32/64-bit types are restricted to magnitude < 2^30 (TLC integers); runs outside the modelled fragment are counted as out_of_model and not judged. The typed AST is the checker's (parser desugarings such as <= and op-assignment are already applied), so duplicated evaluation introduced by the parser is not visible in this direction. Trusted: the projection typed AST -> JSON (harness/src/proj.rs), JSON value -> Literal conversion, TLC."
 CHECKS = {
+    "C13": {
+        "text": "Bitonic.tla models the compare-exchange networks (merger with m = previous power of two, sorter with descending/ascending halves) and the join pipeline (padding, tag bit, reversed second array, adjacent windows) and TLC checks them against the sorted-merge join on all 0/1 inputs and all small ascending / non-descending key sequences; every enumerated input is replayed into the real networks (verif_hooks), into compiled for-join programs (judged by GarbleSem's for-join through Trace_Eval.tla: pairs, order, effects and panics only for joined rows) and into compiled `join` built-in programs (Trace_Join.tla: flagged entries exactly the matches, each common key once, unflagged entries zero, flags sorted).",
+        "design_ref": "DESIGN.md §5 C13",
+        "note": "Bounds: networks on all 0/1 inputs up to length 9 (quick) / 13 (thorough) and power-of-two mergers up to 16; key sets n,m <= 3 (quick) / 5 (thorough) over a small key domain containing 0; key types u8, u16, (u8,u8), [u8;2]. Trusted: program templates in harness/src/c13.rs, projection, TLC.",
+        "technique": "TLA+ design model of the bitonic networks and join pipeline checked by TLC; TLC-enumerated inputs replayed into the implementation; TLC trace validation of join results",
+    },
     "C01": {
         "text": "GarbleSem.tla is a definitional interpreter of the source language over an explicit state (scope stack, panic set) and Layout.tla the documented bit layout; the real compiler's output for corpus programs and for thousands of generated well-typed programs, in all four configurations, is recorded on boundary-biased inputs and every run is validated by TLC (Trace_Eval.tla): arguments re-encoded, program re-executed by the oracle, output bits compared.",
         "design_ref": "DESIGN.md §5 C01",
